@@ -408,6 +408,66 @@ def after_e2e_cases(rng, n, nseeds):
     return cases
 
 
+# ---------------------------------------------------------------------------------------------
+# -k / -m at project level: expressions that are false for every task, true for every task, true for exactly one; both options
+# ---------------------------------------------------------------------------------------------
+
+def _clean_ident(f):
+    f = "".join(c for c in f if c == "_" or c.isalnum() or c in ":+-.[]/\\") or "q"
+    return "q" if f in KEYWORDS else f
+
+
+def project_queries(rng, tasks, e2e=False):
+    """(-k, -m) pairs for one project, by intended extent of the selection; the oracle decides what they really select."""
+    names = [t["name"] for t in tasks]
+    marks = sorted({m for t in tasks for m in t["markers"]})
+    one = _clean_ident(rng.choice(names).split("::")[-1])
+    other = _clean_ident(rng.choice(names).split("::")[-1])
+    common = "task" if all("task" in n.lower() for n in names) else _clean_ident(names[0][:1])
+    k_none = rng.choice(["zzz_no_such", "delta_q", f"{one} and not {one}", f"{one} and zzz", f"not {common}", "qqq or www"])
+    k_all = rng.choice([common, f"{one} or not {one}", f"not zzz", f"{common} or zzz"])
+    k_one = rng.choice([one, one.upper(), f"{one} and not zzz"])
+    m_none = rng.choice(["nomark", "zz.y", f"{marks[0]} and not {marks[0]}" if marks else "nomark", "not not nomark"])
+    m_all = rng.choice(["not nomark", f"{marks[0]} or not {marks[0]}" if marks else "not nomark"])
+    m_some = rng.choice(marks) if marks else "slow"
+    qs = [(k_none, ""), ("", m_none), (k_none, m_none), (k_all, m_none), (k_none, m_all), (k_all, ""), ("", m_all), (k_all, m_all),
+          (k_one, ""), (k_one, m_all), (k_one, m_none), ("", m_some), (k_all, m_some), (k_none, m_some), (k_one, m_some), ("", ""),
+          (f"{one} or {other}", ""), (f"{one} and {other}", ""), (f"not {one}", f"not {m_some}")]
+    if not e2e:
+        qs += [(rand_query(rng, tasks), rng.choice(["", m_some, m_none])) for _ in range(3)]
+        qs += [("(", ""), ("", "a b"), (k_none, "and")]
+        return [list(q) for q in qs]
+    return [list(q) for q in rng.sample(qs, 3)] + [[k_none, ""], ["", m_none]]
+
+
+def select_project_cases(rng, n):
+    cases = []
+    # canonical shapes of the class first
+    base = [{"name": "task_alpha", "attrs": [], "markers": []}, {"name": "task_beta", "attrs": [], "markers": ["slow"]},
+            {"name": "task_gamma", "attrs": [], "markers": []}]
+    cases.append({"tasks": base, "queries": [["delta", ""], ["alpha and beta", ""], ["not task_", ""], ["", "fast"], ["alpha", "fast"],
+                                             ["delta", "slow"], ["alpha", ""], ["", "slow"], ["task", "slow"], ["", ""]]})
+    for _ in range(n):
+        tasks = [rand_task(rng) for _ in range(rng.randint(1, 5))]
+        if len({t["name"] for t in tasks}) != len(tasks):
+            continue
+        cases.append({"tasks": tasks, "queries": project_queries(rng, tasks)})
+    return cases
+
+
+E2E_MARKS = ["slow", "gpu", "wip"]
+
+
+def select_e2e_cases(rng, n):
+    cases = []
+    for k in range(n):
+        names = _after_names(rng, rng.randint(2, 4))
+        tasks = [{"func": nm, "name": nm, "attrs": [], "markers": sorted(set(rng.sample(E2E_MARKS, rng.choice([0, 0, 1, 2]))))} for nm in names]
+        cases.append({"mod": f"s{k}", "tasks": tasks, "all_markers": E2E_MARKS, "queries": project_queries(rng, tasks, e2e=True),
+                      "hashseed": rng.randrange(1, 4_000_000_000)})
+    return cases
+
+
 def corpus_strings():
     """Hand-picked strings: documented examples, boundary cases of the alphabet and of keyword recognition."""
     return [
